@@ -13,7 +13,8 @@ PROOFS = ["proofs/SupInv.v", "proofs/SupStop.v", "proofs/SupTrig.v", "proofs/Sup
 
 
 def run(run):
-    S.run_property(run, "C18", FAMILIES, PROP, PROOFS)
+    # the legs' proof files are listed too, so that the obligation counts of the evidence cover props/C18.v as a whole
+    S.run_property(run, "C18", FAMILIES, PROP, PROOFS + c18_cluster.FILES + ["model/FsmGo.v", "proofs/FsmCensus.v"])
     c18_cluster.leg(run)
     c18_fsm.leg(run)
 
